@@ -317,23 +317,24 @@ def mgs_premises(ctx, n):
     1, same weight type, no partition constraints unless asked for; and when a weighted edge is ignored MinGenSet is not
     consulted at all."""
     import flowpaths as fp
-    import flowpaths.minflowdecomp as mfdmod
-    real = mfdmod.mgs.MinGenSet
+    import inspect
+    import flowpaths.mingenset as mgsmod
+    cls_ = mgsmod.MinGenSet; real_init = cls_.__init__
+    names_ = [p_ for p_ in inspect.signature(real_init).parameters][1:]
     for i in range(n):
         rng = ctx.rng("mgsprem", i)
         info = scan_instance(rng, False) if i % 2 else zoo.make(rng, "MinFlowDecomp", node=False, with_starts=False, exact=True)
         seen = []
 
-        class Tap(real):
-            def __init__(self, *a, **kw):
-                seen.append(dict(kw, _args=a)); super().__init__(*a, **kw)
+        def tapped(self, *a, **kw):          # the constructor itself is wrapped: independent of how the module imports the class
+            seen.append(dict(zip(names_, a), **kw)); return real_init(self, *a, **kw)
         pc = rng.random() < 0.3
         opts = {"use_min_gen_set_lowerbound": True, "optimize_with_greedy": False, "use_min_gen_set_lowerbound_partition_constraints": pc}
-        mfdmod.mgs.MinGenSet = Tap
+        cls_.__init__ = tapped
         try:
             m = zoo.construct(info, opts); lb = m.get_lowerbound_k()
         except ValueError as e:
-            mfdmod.mgs.MinGenSet = real
+            cls_.__init__ = real_init
             try:
                 zoo.construct(info, {"use_min_gen_set_lowerbound": False, "optimize_with_greedy": False}).get_lowerbound_k()
             except ValueError:
@@ -342,7 +343,7 @@ def mgs_premises(ctx, n):
                        "without the option the same input is accepted", {"instance": zoo.describe(info), "options": opts})
             continue
         finally:
-            mfdmod.mgs.MinGenSet = real
+            cls_.__init__ = real_init
         G = info["G"]; ign = set(map(tuple, info["kwargs"].get("elements_to_ignore", [])))
         rep = {"instance": zoo.describe(info), "options": opts, "captured": [{k: v for k, v in c.items() if k != "solver_options"} for c in seen]}
         ctx.case(["mgsprem", zoo.describe(info), pc], nontrivial=bool(seen)); ctx.count("E2_min_gen_set_premises", "cases")
